@@ -20,18 +20,19 @@ LEVEL = 'proof'
 RULE = ('regex ASTs: every tree of size <= 4 (quick; <= 5 thorough) over the leaves Eps, {a}, {b}, NULL, SIGMA built '
         'with the raw classes Kleene/Concatenation/LogicalOr/LogicalAnd (arguments their constructors reject are '
         'skipped); words: all words over {a,b} of length <= 4 (quick) / <= 5 (thorough); concrete syntax: every string '
-        'of length <= 3 and 350 seeded samples of length 4 (thorough: every string <= 5) over the characters a b | * ( ) '
+        'of length <= 3 and 220 seeded samples of length 4 (thorough: every string <= 5) over the characters a b | * ( ) '
         'plus a fixed list exercising + ? . [..] \\ ; '
         'distinct non-trivial = distinct (regex, word) pairs with the regex not Eps/NULL and compile() succeeding')
-EXPLANATION = ('Unbounded Coq theorems about the hand model: nullable() <-> empty word in L; derivative = left quotient, '
-               'through every smart-constructor simplification (concatenate/logical_or/logical_and preserve L); derivative '
-               'classes are sound (same class => same derivative object), cover 0..255 and are pairwise disjoint; '
-               'compile()+table run is PARTIALLY correct (c31_dfa_correct_partial: whenever the run returns it returns '
-               'membership in L(r); totality of pick_transition over 0..255 and termination of compile are not proved - '
-               'compile really diverges on e.g. a*a*); the parser as found is refuted (c31_parser_matches_grammar_refuted) '
-               'and the grammar-prescribed AST is proved to denote the grammar language (c31_grammar_build_meaning). '
-               'NOT proved, validated by correspondence/oracles only: repaired parser = build_alt of the syntax tree, '
-               'scan()/maximal munch, IntegerSet algorithms (modelled extensionally; property C33).')
+EXPLANATION = ('Unbounded Coq theorems about the hand model (19 in Props/C31.v): nullable() <-> empty word in L; derivative = left '
+               'quotient through every smart-constructor simplification; derivative classes sound, covering 0..255, pairwise '
+               'disjoint; compile()+table run: total on words over 0..255 and accepts exactly L(r) (c31_run_total, '
+               'c31_dfa_correct) whenever compile returns tables; compile termination under a decidable certificate '
+               '(closed derivative set, c31_compile_terminates_certified) and fuel monotonicity - compile really diverges on '
+               'e.g. a*a* and raises KeyError for .* (known findings, both reproduced by the model); scan() = maximal munch '
+               'for non-nullable regexes in all outcomes (tokens / ValueError / never internal error; no fuel bound proved); '
+               'the parser as found is refuted, the repaired parser returns exactly the grammar-prescribed AST for every '
+               'well-formed syntax tree of the reference grammar (c31_parser_matches_grammar) whose language is the tree\'s '
+               'language (c31_parser_language). Modelled extensionally, not verified here: IntegerSet algorithms (C33).')
 TRUSTED = ['hand model coq/Model/Regex.v (cross-checked against the implementation on every run: AST-level nu/derivative/'
            'classes/compile tables/run, smart constructors, IntegerSet operations, parser, scan)',
            'CPython: sorted()/list.sort() on int tuples = lexicographic insertion sort; bisect.bisect on a sorted list = '
@@ -406,12 +407,18 @@ def corr_ast(ctx, im, maxsize, maxlen):
             recs.append(('compile', r))
             cases.append(('case_run %d %s %d' % (FUEL, t, maxlen), outs))
             recs.append(('run', r))
+    # the hypothesis re_canon of the DFA/scan theorems holds for every regex object Python can build
+    terms = [re_term(r) for size in sorted(by) for r in by[size]]
+    for k in range(0, len(terms), 60):
+        cases.append(('forallb re_canonb [%s]' % '; '.join(terms[k:k + 60]), True))
+        recs.append(('re_canonb', by[1][0]))
+    dist['canon_batches'] = (len(terms) + 59) // 60
     ctx.cov['stages']['correspondence_ast'] = dist
     ctx.cov['distinct_nontrivial'] += nontriv
     for k in (7, len(recs) // 2, len(recs) - 2):
         if 0 <= k < len(recs):
             ctx.note_sample({'stage': recs[k][0], 'regex': re_repr(recs[k][1])})
-    bad = ctx.run_cases('ast', IMPORTS, cases)
+    bad = ctx.run_cases('ast', IMPORTS + ['Proofs.C31_total'], cases)
     if bad:
         for i in bad[:5]:
             ctx.log('model/implementation disagree:', recs[i][0], re_repr(recs[i][1]))
@@ -421,7 +428,7 @@ def corr_ast(ctx, im, maxsize, maxlen):
 
 def corr_smart(ctx, im):
     by = enum_asts(im, 3)
-    pool = by[1] + by[2] + by[3][::9]
+    pool = by[1] + by[2] + by[3][::20]
     cases, recs = [], []
     for x in pool:
         for y in pool:
@@ -473,7 +480,7 @@ def corr_parser(ctx, im, maxlen):
     for k in range(0, maxlen + 1):
         level = [''.join(p) for p in itertools.product('ab|*()', repeat=k)]
         if ctx.quick() and k >= 4:
-            level = ctx.rng.sample(level, 350)      # quick tier: length 4 is sampled (seeded), <= 3 exhaustive
+            level = ctx.rng.sample(level, 220)      # quick tier: length 4 is sampled (seeded), <= 3 exhaustive
         texts += level
     cases, recs = [], []
     dist = {'ok': 0, 'diag': 0, 'internal': 0}
@@ -523,11 +530,18 @@ def corr_scan(ctx, im, maxlen):
 
 
 def run(ctx):
+    import time as _t
+    w = ctx.cov['stages'].setdefault('wall_s', {})
+    w['before_run'] = round(_t.time() - ctx.t0, 1)
     regen(ctx)
     im = Impl()
+    t = _t.time()
     ok, _ = ctx.build(['Props/C31.vo', 'Model/RegexVal.vo'])
+    w['build'] = round(_t.time() - t, 1)
     if ok:
+        t = _t.time()
         ctx.check_props('Props/C31.v')
+        w['props'] = round(_t.time() - t, 1)
         quick = ctx.quick()
         import time
         for name, fn in (('ast', lambda: corr_ast(ctx, im, 4 if quick else 5, 4 if quick else 5)),
@@ -545,17 +559,18 @@ def run(ctx):
 
 
 MANIFEST = {
-    'text': 'proof (core) + validated-only (parser, scanner): unbounded Coq theorems over the hand model of ppci/lang/tools/regex: '
-            'nullable(r) <-> [] in L(r); L(derivative(r,c)) = c^-1 L(r) including all smart-constructor simplifications; derivative '
-            'classes are sound, cover 0..255 and are pairwise disjoint; compile() (worklist DFA construction) followed by the '
-            'table-driven run returns membership in L(r) whenever it returns (partial correctness; totality and termination not '
-            'proved). The parser as found is refuted in Coq ("ab|cd" parsed as a(b|c)d) and repaired by '
-            'fixes/C31-regex-parser-precedence.diff; the repaired parser and scan() are validated-only: exhaustive '
-            'model/implementation correspondence on short strings plus re.fullmatch and brute-force oracles',
+    'text': 'proof: unbounded Coq theorems over the hand model of ppci/lang/tools/regex: nullable(r) <-> [] in L(r); '
+            'L(derivative(r,c)) = c^-1 L(r) including all smart-constructor simplifications; derivative classes are sound, cover '
+            '0..255 and are pairwise disjoint; whenever compile() returns tables, the table-driven run is total on words over 0..255 '
+            'and accepts exactly L(r); compile() terminates under a decidable closed-derivative-set certificate; scan() returns the '
+            'maximal-munch split for non-nullable regexes (ValueError iff none exists, never an internal error); the repaired parser '
+            '(fix applied) returns for every well-formed syntax tree of the reference grammar exactly the grammar-prescribed regex, '
+            'whose language is the tree\'s language; the parser as found is refuted in Coq ("ab|cd" parsed as a(b|c)d)',
     'note': 'trusted: Coq kernel; hand model (tie H) cross-checked on every run against the real code on all ASTs of size <= 4/5 '
-            'x all words <= 4/5 over {a,b} (nu, derivative, classes, full DFA tables, run) and short concrete-syntax strings; '
-            'IntegerSet contains/intersection/difference modelled extensionally (property C33 covers the algorithms). Known findings: '
-            'compile() KeyError when the NULL state is unreachable (".*"); compile() diverges when derivatives are not finite '
-            'modulo the implemented simplifications ("a*a*"); scan() diverges on nullable regexes.',
-    'technique': 'Coq proof over hand model (Brzozowski derivatives) + exhaustive small-domain correspondence + two independent oracles',
+            'x all words <= 4/5 over {a,b} (nu, derivative, classes, full DFA tables, run, canonical-set hypothesis) and short '
+            'concrete-syntax strings; IntegerSet contains/intersection/difference modelled extensionally (property C33 covers the '
+            'algorithms). Not proved: fuel bound for scan, termination of compile in general (false: known finding). Known findings: '
+            'compile() KeyError when the NULL state is unreachable (".*"); compile() diverges when derivatives are not finite modulo '
+            'the implemented simplifications ("a*a*"); scan() diverges on nullable regexes.',
+    'technique': 'Coq proof over hand model (Brzozowski derivatives, recursive-descent round trip) + exhaustive small-domain correspondence + two independent oracles',
 }
